@@ -4,6 +4,7 @@
   both to the model (`Filter.print`, `groupOp`, `negateTop`).
 -/
 import Lmd.Print
+import Lmd.Stats
 import Std.Data.String.ToNat
 
 namespace Lmd.C17
@@ -343,5 +344,235 @@ mutual
       rw [emitList]
       exact ⟨noNegNeg_append _ _ h1 h3 h4, headNotNeg_append _ _ h2 h4⟩
 end
+
+/-! ## header lines -/
+
+theorem trimLeft_digits (n : Nat) : trimLeftSpaces (" " ++ toString n) = toString n := by
+  have e : (" " ++ toString n).toList = ' ' :: Nat.toDigits 10 n := by simp
+  unfold trimLeftSpaces
+  rw [e]
+  cases h : Nat.toDigits 10 n with
+  | nil => exact absurd h Nat.toDigits_ne_nil
+  | cons c cs =>
+    have hc : c.isDigit = true :=
+      Nat.isDigit_of_mem_toDigits (b := 10) (n := n) (by omega) (by omega) (by rw [h]; exact List.mem_cons_self)
+    have : c ≠ ' ' := by intro e; rw [e] at hc; exact absurd hc (by decide)
+    rw [Nat.toString_eq_ofList_toDigits, h]
+    simp [dropWhileL, this]
+
+theorem cut_and (s : String) : cut ':' ("And: " ++ s) = ("And", some (" " ++ s)) := by
+  have e : ("And: " ++ s).toList = 'A' :: 'n' :: 'd' :: ':' :: ' ' :: s.toList := by simp
+  unfold cut
+  rw [e]
+  simp [cutL]
+
+theorem cut_or (s : String) : cut ':' ("Or: " ++ s) = ("Or", some (" " ++ s)) := by
+  have e : ("Or: " ++ s).toList = 'O' :: 'r' :: ':' :: ' ' :: s.toList := by simp
+  unfold cut
+  rw [e]
+  simp [cutL]
+
+theorem cut_filter (s : String) : cut ':' ("Filter: " ++ s) = ("Filter", some (" " ++ s)) := by
+  have e : ("Filter: " ++ s).toList = 'F' :: 'i' :: 'l' :: 't' :: 'e' :: 'r' :: ':' :: ' ' :: s.toList := by simp
+  unfold cut
+  rw [e]
+  simp [cutL]
+
+/-- the line `And: n` is `parseFilterGroupOp` with the number `n` on the filter stack -/
+theorem headerLine_and (o : ParseOpts) (t : Table) (req : Request) (n : Nat) :
+    parseHeaderLine o t req ("And: " ++ toString n)
+      = (groupOp true (toString n) req.filter).map (fun f => { req with filter := f }) := by
+  unfold parseHeaderLine
+  rw [cut_and]
+  have : goLower "And" = "and" := by decide
+  simp only [this, trimLeft_digits]
+  cases groupOp true (toString n) req.filter <;> rfl
+
+theorem headerLine_or (o : ParseOpts) (t : Table) (req : Request) (n : Nat) :
+    parseHeaderLine o t req ("Or: " ++ toString n)
+      = (groupOp false (toString n) req.filter).map (fun f => { req with filter := f }) := by
+  unfold parseHeaderLine
+  rw [cut_or]
+  have : goLower "Or" = "or" := by decide
+  simp only [this, trimLeft_digits]
+  cases groupOp false (toString n) req.filter <;> rfl
+
+theorem headerLine_negate (o : ParseOpts) (t : Table) (req : Request) :
+    parseHeaderLine o t req "Negate:"
+      = (negateTop o.q req.filter).map (fun f => { req with filter := f }) := by
+  unfold parseHeaderLine
+  have c : cut ':' "Negate:" = ("Negate", some "") := by decide
+  rw [c]
+  have : goLower "Negate" = "negate" := by decide
+  simp only [this]
+  cases negateTop o.q req.filter <;> rfl
+
+theorem headerLine_filter (o : ParseOpts) (t : Table) (req : Request) (v : String) :
+    parseHeaderLine o t req ("Filter: " ++ v)
+      = (parseFilterLeaf o t (trimLeftSpaces (" " ++ v))).map
+          (fun l => { req with filter := req.filter ++ [.leaf l false], numFilter := req.numFilter + 1 }) := by
+  unfold parseHeaderLine
+  rw [cut_filter]
+  have : goLower "Filter" = "filter" := by decide
+  simp only [this]
+  cases parseFilterLeaf o t (trimLeftSpaces (" " ++ v)) <;> rfl
+
+theorem toOption_map {ε α β} (f : α → β) (x : Except ε α) : (x.map f).toOption = x.toOption.map f := by
+  cases x <;> rfl
+
+/-! ## whole lines through `parseHeaderLines` -/
+
+theorem dropWhileL_head {p : Char → Bool} {c : Char} {cs : List Char} (h : p c = false) :
+    dropWhileL p (c :: cs) = c :: cs := by simp [dropWhileL, h]
+
+theorem trimSpace_id (a b : Char) (mid : List Char) (ha : isGoSpace a = false) (hb : isGoSpace b = false) :
+    trimSpace (String.ofList (a :: (mid ++ [b]))) = String.ofList (a :: (mid ++ [b])) := by
+  unfold trimSpace
+  rw [String.toList_ofList, dropWhileL_head ha]
+  have : (a :: (mid ++ [b])).reverse = b :: (mid.reverse ++ [a]) := by simp
+  rw [this, dropWhileL_head hb, ← this, List.reverse_reverse]
+
+theorem digit_not_space {c : Char} (h : c.isDigit = true) : isGoSpace c = false := by
+  simp only [Char.isDigit, Bool.and_eq_true, decide_eq_true_eq] at h
+  obtain ⟨h1, h2⟩ := h
+  rw [ge_iff_le, UInt32.le_iff_toNat_le] at h1
+  rw [UInt32.le_iff_toNat_le] at h2
+  have e0 : ('0' : Char).val.toNat = 48 := rfl
+  have e9 : ('9' : Char).val.toNat = 57 := rfl
+  have hn : c.toNat = c.val.toNat := rfl
+  have ne : ∀ d : Char, d.toNat < 48 → (c == d) = false := by
+    intro d hd
+    simp only [beq_eq_false_iff_ne, ne_eq]
+    intro e; subst e; omega
+  simp [isGoSpace, ne]
+  omega
+
+/-- the printed group line survives `strings.TrimSpace` -/
+theorem trimSpace_grp_line (kw : String) (k : Char) (ks : List Char) (hk : kw.toList = k :: ks)
+    (hks : isGoSpace k = false) (n : Nat) :
+    trimSpace (kw ++ toString n) = kw ++ toString n := by
+  have hd := Nat.toDigits_ne_nil (b := 10) (n := n)
+  obtain ⟨init, last, e⟩ : ∃ init last, Nat.toDigits 10 n = init ++ [last] := by
+    rcases List.eq_nil_or_concat (Nat.toDigits 10 n) with h | ⟨i, l, h⟩
+    · exact absurd h hd
+    · exact ⟨i, l, by simpa using h⟩
+  have hl : last.isDigit = true :=
+    Nat.isDigit_of_mem_toDigits (b := 10) (n := n) (by omega) (by omega) (by rw [e]; simp)
+  have es : kw ++ toString n = String.ofList (k :: ((ks ++ init) ++ [last])) := by
+    apply String.toList_injective
+    simp [hk, e]
+  rw [es]
+  exact trimSpace_id k last _ hks (digit_not_space hl)
+
+/-- `line` is a header line that `parseHeaderLines` hands unchanged to `parseHeaderLine`, where it acts
+    on the filter stack as the token `tok` -/
+def LineOf (o : ParseOpts) (t : Table) (line : String) (tok : Tok) : Prop :=
+  trimSpace line = line ∧ line ≠ "" ∧
+    ∀ req : Request, (parseHeaderLine o t req line).toOption.map (·.filter) = step o.q req.filter tok
+
+theorem parseHeaderLines_run (o : ParseOpts) (t : Table) (hdr : Tok → String) (ts : List Tok)
+    (h : ∀ tok ∈ ts, LineOf o t (hdr tok) tok) (req : Request) :
+    (parseHeaderLines o t req (ts.map hdr)).toOption.map (·.filter) = run o.q ts req.filter := by
+  induction ts generalizing req with
+  | nil => simp [parseHeaderLines, run, pure, Except.pure, Except.toOption]
+  | cons tok ts ih =>
+    obtain ⟨h1, h2, h3⟩ := h tok List.mem_cons_self
+    have hne : (hdr tok == "") = false := by simpa using h2
+    rw [List.map_cons, parseHeaderLines]
+    simp only [h1, hne, Bool.false_eq_true, if_false, run]
+    have := h3 req
+    cases hp : parseHeaderLine o t req (hdr tok) with
+    | error e =>
+      rw [hp] at this
+      have hs : step o.q req.filter tok = none := by simpa [Except.toOption] using this.symm
+      rw [hs]; rfl
+    | ok r =>
+      rw [hp] at this
+      have hs : step o.q req.filter tok = some r.filter := by simpa [Except.toOption] using this.symm
+      rw [hs]
+      exact ih (fun x hx => h x (List.mem_cons_of_mem _ hx)) r
+
+theorem lineOf_grp (o : ParseOpts) (t : Table) (a : Bool) (n : Nat) :
+    LineOf o t ((if a then "And: " else "Or: ") ++ toString n) (.grp a n) := by
+  refine ⟨?_, ?_, ?_⟩
+  · cases a
+    · exact trimSpace_grp_line "Or: " 'O' _ rfl (by decide) n
+    · exact trimSpace_grp_line "And: " 'A' _ rfl (by decide) n
+  · intro h
+    have := congrArg String.length h
+    cases a <;> simp at this
+  · intro req
+    cases a
+    · simp only [Bool.false_eq_true, if_false, headerLine_or, toOption_map,
+        groupOp_eq_step o.q false (toString n) n req.filter (atoi_toString n), Option.map_map]
+      cases step o.q req.filter (.grp false n) <;> rfl
+    · simp only [if_true, headerLine_and, toOption_map,
+        groupOp_eq_step o.q true (toString n) n req.filter (atoi_toString n), Option.map_map]
+      cases step o.q req.filter (.grp true n) <;> rfl
+
+theorem lineOf_neg (o : ParseOpts) (t : Table) : LineOf o t "Negate:" .neg := by
+  refine ⟨by decide, by decide, ?_⟩
+  intro req
+  rw [headerLine_negate, toOption_map, negateTop_eq_step, Option.map_map]
+  cases step o.q req.filter .neg <;> rfl
+
+/-- the header line of a token without the newline, given the text of the leaf lines -/
+def tokHeader (ll : Leaf → String) : Tok → String
+  | .leaf l => ll l
+  | .grp a n => (if a then "And: " else "Or: ") ++ toString n
+  | .neg => "Negate:"
+
+theorem tokHeader_line (ll : Leaf → String) (tok : Tok)
+    (h : ∀ l, tok = .leaf l → ll l ++ "\n" = l.printLine "Filter") :
+    tokHeader ll tok ++ "\n" = Tok.line false tok := by
+  cases tok with
+  | leaf l => exact h l rfl
+  | grp a n => cases a <;> simp [tokHeader, Tok.line, String.append_assoc]
+  | neg => rfl
+
+/-! ## the Stats stack -/
+
+theorem statsAsFilters_counters (fs : List Filter) : statsAsFilters (fs.map StatsEntry.counter) = some fs := by
+  induction fs with
+  | nil => rfl
+  | cons f fs ih => simp [statsAsFilters, ih]
+
+/-- `StatsAnd: n` / `StatsOr: n` over `n > 0` counter entries builds the same group as `And: n` / `Or: n` -/
+theorem statsGroupOp_counters (o : ParseOpts) (t : Table) (a : Bool) (v : String)
+    (keep : List StatsEntry) (fs : List Filter) (hne : fs ≠ [])
+    (h : atoi? v = some (fs.length : Int)) :
+    statsGroupOp o t a v (keep ++ fs.map StatsEntry.counter) = pure (keep ++ [.counter (.grp a fs false)]) := by
+  have hl : fs.length ≠ 0 := by simpa using hne
+  have h0 : ((some (fs.length : Int) : Option Int) == some 0) = false := by
+    simp; omega
+  have h1 : ¬ ((fs.length : Int) < 0) := by omega
+  unfold statsGroupOp
+  rw [h]
+  simp [h0, h1, statsAsFilters_counters]
+  intro hlt
+  omega
+
+/-! ## queries read only some fields of a request -/
+
+theorem selectBackends_congr (ds : Dataset) (t : Table) (r1 r2 : Request) (hb : r1.backends = r2.backends) :
+    selectBackends ds t r1 = selectBackends ds t r2 := by
+  simp only [selectBackends, hb]
+
+theorem resultLimit_congr (r1 r2 : Request) (hs : r1.sort = r2.sort) (hl : r1.limit = r2.limit)
+    (ho : r1.offset = r2.offset) (ht : r1.table = r2.table) : resultLimit r1 = resultLimit r2 := by
+  unfold resultLimit isDefaultSortOrder
+  rw [hs, hl, ho, ht]
+
+theorem gatherRows_congr (m : EvalMode) (cx : Ctx) (t : Table) (r1 r2 : Request)
+    (hf : r1.filter = r2.filter) (hs : r1.sort = r2.sort) (hl : r1.limit = r2.limit)
+    (ho : r1.offset = r2.offset) (ha : r1.authUser = r2.authUser)
+    (ht : r1.table = r2.table) (hfmt : r1.outFmt = r2.outFmt) :
+    gatherRows m cx t r1 = gatherRows m cx t r2 := by
+  simp only [gatherRows, resultLimit_congr r1 r2 hs hl ho ht, hf, hs, ha, hfmt]
+
+theorem gatherStats_congr (m : StatsMode) (cx : Ctx) (t : Table) (r1 r2 : Request) (cols : List Column)
+    (hf : r1.filter = r2.filter) (hs : r1.stats = r2.stats) (ha : r1.authUser = r2.authUser) :
+    gatherStats m cx t r1 cols = gatherStats m cx t r2 cols := by
+  simp only [gatherStats, hf, hs, ha]
 
 end Lmd.C17
